@@ -1293,10 +1293,46 @@ fn history(t: &mut Tape, c: &mut Case) {
                 }
                 // documented: a failing commit may be partial. Every ref must read as its old or its new value.
                 c.label("df-commit-error");
-                let (_, found) = match observe_store(&repo.store()) {
+                let (it, found) = match observe_store(&repo.store()) {
                     Ok(v) => v,
                     Err(e) => bail!(c, steps, "gix-read-error", "after a failed commit: {e}"),
                 };
+                // what the store holds: lookups plus iteration (a packed ref below a loose file is only seen by iteration)
+                let mut found = found;
+                for (k, v) in it {
+                    match found.get(&k) {
+                        Some(f) if *f != v => bail!(
+                            c,
+                            steps,
+                            "gix-iter-find-disagree",
+                            "after a failed commit iteration yields {k} = {v} but try_find yields {f}"
+                        ),
+                        Some(_) => {}
+                        None => {
+                            found.insert(k, v);
+                        }
+                    }
+                }
+                // Known finding `df-conflict-accepted` surfacing through a commit error: the transaction created a name in
+                // directory/file conflict with another ref (prepare should have refused it), failed half way in commit, and
+                // BOTH conflicting refs exist now (e.g. loose refs/heads/a next to packed refs/heads/a/b). The observers cannot
+                // agree on such a store; the history ends here under the known signature. Only this exact situation qualifies.
+                if mdf.is_some() {
+                    let keys: Vec<&String> = found.keys().collect();
+                    if let Some((x, y)) = keys
+                        .iter()
+                        .flat_map(|x| keys.iter().map(move |y| (*x, *y)))
+                        .find(|(x, y)| dir_prefix_of(x, y))
+                    {
+                        bail!(
+                            c,
+                            steps,
+                            "df-conflict-accepted",
+                            "prepare accepted a transaction that creates a directory/file conflict ({:?}); commit then failed half way ({e}) and left both {x} and {y} in the store",
+                            mdf
+                        );
+                    }
+                }
                 let mut synced = Model::new();
                 for n in NAMES {
                     let old = m.get(n).map(|v| show_val(v, pool));
